@@ -14,6 +14,9 @@ structure WireConsts where
   flagHip : Nat
   flagTable : Nat
   flagWindow : Nat
+  /-- shape of `deserialize` in the current source: an image with C = 0 starts with kxp = 2^lg_k (true, the repaired
+  code) or keeps the declaration value kxp = 0 (false, the code before fix de90ce5) -/
+  emptyKxpIsK : Bool
 
 def leBytes (n x : Nat) : List Nat := (List.range n).map (fun i => (x / 256^i) % 256)
 
@@ -29,6 +32,9 @@ structure HipBits where
   kxp : Nat
   hip : Nat
 deriving Repr, DecidableEq
+
+/-- IEEE-754 binary64 pattern of 2^e (`std::ldexp(1.0, e)`, e < 1024) -/
+def pow2Bits (e : Nat) : Nat := (1023 + e) * 2^52
 
 /-- `serialize()` -/
 def serializeCore (W : WireConsts) (C : CompTables) (seedHash : Nat) (s : Sketch) (hb : HipBits) : List Nat :=
@@ -106,6 +112,8 @@ def deserializeCore (W : WireConsts) (C : CompTables) (seedHash : Nat) (bytes : 
       if fam ≠ W.family then none else
       if sh0 + 256 * sh1 ≠ seedHash then none else
       let tw := uncompress C { tableWords := twords, tableNumEntries := ne, windowWords := wwords } lgK c
+      -- `if (num_coupons == 0) kxp = std::ldexp(1.0, lg_k);` (repaired shape only)
+      let hb : HipBits := if c = 0 ∧ W.emptyKxpIsK = true then ⟨pow2Bits lgK, hb.hip⟩ else hb
       some ({ lgK := lgK, numCoupons := c, table := tw.1, window := tw.2, offset := determineCorrectOffset lgK c,
               fic := fic, kxp := ofBits hb.kxp, hip := ofBits hb.hip, merged := !hasHip }, hb)
   | _ => none
